@@ -31,4 +31,28 @@ def zBasis {K : Type} [Add K] [Mul K] [Zero K] [One K] [IntCast K] (sqrtN : Nat 
     (normalize : Bool) (rho theta : P → K) (mask : P → Bool) : Matrix P (Fin k) K :=
   fun p i => zernAt sqrtN cos sin (modes i) normalize (rho p) (theta p) (mask p)
 
+/-! ### `(BᵀB)⁻¹Bᵀ` is THE Moore–Penrose inverse -/
+
+theorem pinvFR_penrose (B : Matrix P M R) (h : IsUnit (Bᵀ * B).det) :
+    B * pinvFR B * B = B ∧ pinvFR B * B * pinvFR B = pinvFR B ∧
+    (B * pinvFR B)ᵀ = B * pinvFR B ∧ (pinvFR B * B)ᵀ = pinvFR B * B := by
+  have h1 : pinvFR B * B = 1 := pinvFR_mul B h
+  have hG : (Bᵀ * B)ᵀ = Bᵀ * B := by rw [Matrix.transpose_mul, Matrix.transpose_transpose]
+  refine ⟨?_, ?_, ?_, ?_⟩
+  · rw [Matrix.mul_assoc, h1, Matrix.mul_one]
+  · rw [h1, Matrix.one_mul]
+  · unfold pinvFR
+    rw [Matrix.transpose_mul, Matrix.transpose_mul, Matrix.transpose_transpose, Matrix.transpose_nonsing_inv, hG, Matrix.mul_assoc]
+  · rw [h1, Matrix.transpose_one]
+
+theorem pinvFR_unique (B : Matrix P M R) (X : Matrix M P R) (h : IsUnit (Bᵀ * B).det)
+    (h1 : B * X * B = B) (h3 : (B * X)ᵀ = B * X) : X = pinvFR B := by
+  have e : Bᵀ * B * X = Bᵀ := by
+    have := congrArg Matrix.transpose h1
+    rw [Matrix.transpose_mul, h3, ← Matrix.mul_assoc] at this
+    exact this
+  have : (Bᵀ * B)⁻¹ * (Bᵀ * B * X) = (Bᵀ * B)⁻¹ * Bᵀ := by rw [e]
+  rw [← Matrix.mul_assoc, Matrix.nonsing_inv_mul _ h, Matrix.one_mul] at this
+  exact this
+
 end Lentil
